@@ -85,7 +85,11 @@ CLAIMED = {
     },
     'C12': {
         'text': ('Lean 4 (L-sort): renumbering maps keys bijectively onto 0..n-1, strictly monotone in (membership list, '
-                 'old key), blocks per coarse node, touches nothing but keys; atom-name indices are injective. '
+                 'old key), blocks per coarse node, touches nothing but keys; atom-name indices are injective; the distinct-keys '
+                 'hypothesis is discharged for every step the resolver model can take (C12_step_keys: any base graph, '
+                 'templates with distinct keys and closed bonds, any recorded aromaticity answer — through instantiation, '
+                 'bond creation, squashing, hydrogen completion, sorting, stereo annotation and naming the keys of a '
+                 'successful step are exactly 0..n-1). '
                  'Process-level determinism (hash seeds, call histories sharing libraries, constructors, permuted '
                  'definitions, non-mutation) cannot be exhibited by a pure model and is validated by requiring every '
                  'call of every explored history / hash seed to equal the pure model (partial by nature).'),
